@@ -19,7 +19,7 @@ FUNCTIONS = ["OrderedRingBuffer.update", "normalize_timestamp", "to_internal_ind
 SHIMS = ["buffer.round / buffer.int map proxy reals to proxy ints (round-half-even / truncation)", "list indexing/slicing with a proxy int realises the index by forking",
          "math.isnan dispatch on proxies"]
 ASSUMPTIONS = [
-    "list container, sampling period 1 s (and 200 ms / 300 ms / 70 ms instances), align_to = UNIX epoch; update timestamps are symbolic microseconds anywhere in [0, span] (on and off the slot grid, any order); "
+    "list container (numpy container in the *-numpy instances), sampling period 1 s (and 200 ms / 300 ms / 70 ms instances), align_to = UNIX epoch; update timestamps are symbolic microseconds anywhere in [0, span] (on and off the slot grid, any order); "
     "each update is valid or missing by a symbolic flag; values are distinct concrete floats (the property is about WHICH slot a value lands in)",
     "reference: executable map slot -> value with slot = round_half_even(t / period), window = [newest - capacity + 1, newest]",
     "datetime queries: start/end symbolic microseconds (unaligned, inverted, outside the window, closer than one period); index queries: each index None or in [-3, 3]",
@@ -27,7 +27,7 @@ ASSUMPTIONS = [
 BOUNDS = {"quick": "capacity 1 and 2 with 2 updates: consistency after every update, + one datetime query, + one index query, + MovingWindow.at (all exhaustive; timestamps anywhere in a 3-5 s span at us resolution); "
                    "deeper histories with update timestamps enumerated on the slot grid: capacity 4 with 4 updates (state), capacity 3 with 3 updates + symbolic datetime query",
           "thorough": "capacity 3 with 3 updates: consistency (exhaustive), + queries (budgeted); capacity 3 with 4 updates (budgeted); capacity 1 with 3 updates"}
-OUTSIDE = "numpy container (shares every line except _wrapped_buffer_window/_fill_gaps branches); serialization; MovingWindow's resampler wiring; sampling periods other than 1 s, 200 ms, 300 ms, 70 ms; alignment points other than the epoch"
+OUTSIDE = "numpy container beyond the *-numpy instances; serialization; MovingWindow's resampler wiring; sampling periods other than 1 s, 200 ms, 300 ms, 70 ms; alignment points other than the epoch"
 BUDGET = {"quick": 900, "thorough": 2400}
 PERIOD = timedelta(seconds=1)
 PUS = 1_000_000
@@ -57,10 +57,14 @@ def slot_of(us):
     return core.SymInt(core.rhe_div(EI(us), z3.IntVal(PUS)))
 
 
-def apply_updates(ex, cap, k, span, check_each, grid=False):
+def apply_updates(ex, cap, k, span, check_each, grid=False, numpy=False):
     """grid=True: update timestamps are enumerated on the slot grid (concrete), which makes deeper histories affordable;
     queries stay symbolic."""
-    buf = rb.OrderedRingBuffer([0.0] * cap, PERIOD, core.EPOCH)
+    if numpy:
+        import numpy as np
+        buf = rb.OrderedRingBuffer(np.zeros(cap, dtype=float), PERIOD, core.EPOCH)
+    else:
+        buf = rb.OrderedRingBuffer([0.0] * cap, PERIOD, core.EPOCH)
     model = {}
     newest = None
     for i in range(k):
@@ -126,14 +130,14 @@ def same(got, exp):
     return len(got) == len(exp) and all((a == b) or (isinstance(a, float) and isinstance(b, float) and math.isnan(a) and math.isnan(b)) for a, b in zip(got, exp))
 
 
-def make(cap, k, span, mode, reach=False, grid=False, period_us=1_000_000, halfgrid=False):
+def make(cap, k, span, mode, reach=False, grid=False, period_us=1_000_000, halfgrid=False, numpy=False):
     """halfgrid: datetime query bounds are enumerated on the half-slot grid (concrete datetimes exactly between two slots and on slots:
     together with grid=True the whole path runs the code's float arithmetic in IEEE).
     mode: 'state' (consistency after every update), 'dtq' (+ one datetime window query), 'idxq' (+ one index window query);
     span is in sampling periods."""
     def fn(ex):
         set_period(period_us)
-        buf, model, newest = apply_updates(ex, cap, k, span, check_each=(mode == "state"), grid=grid)
+        buf, model, newest = apply_updates(ex, cap, k, span, check_each=(mode == "state"), grid=grid, numpy=numpy)
         if newest is None:
             return
         if reach:
@@ -182,7 +186,7 @@ def make(cap, k, span, mode, reach=False, grid=False, period_us=1_000_000, halfg
             for j in range(n):
                 r = ref_value(model, newest, cap, s0 + j)
                 e = FILL if r is None else r
-                ex.check(w[j] == e, f"window element {j} is {w[j]}, reference slot content is {e}")
+                ex.check(bool(w[j] == e), f"window element {j} is {w[j]}, reference slot content is {e}")
     return fn
 
 
@@ -255,6 +259,9 @@ def instances(tier):
           "sampling period 200 ms (not representable in binary; concrete grid timestamps run the code's float arithmetic in IEEE), capacity 3, 3 updates", budget_s=200, **kw),
         I("grid-cap3-k2-dtq-halfgrid-200ms", "make", (3, 2, 4, "dtq", False, True, 200_000, True),
           "sampling period 200 ms, grid updates, datetime query bounds on the half-slot grid (exact ties of normalize_timestamp, IEEE arithmetic)", budget_s=200, **kw),
+        I("grid-cap3-k3-state-numpy", "make", (3, 3, 4, "state", False, True, 1_000_000, False, True), "numpy container, capacity 3, 3 grid updates: state after every update", budget_s=100, **kw),
+        I("grid-cap3-k2-dtq-numpy", "make", (3, 2, 4, "dtq", False, True, 1_000_000, False, True), "numpy container, grid updates + symbolic datetime query", budget_s=200, **kw),
+        I("grid-cap2-k2-idxq-numpy", "make", (2, 2, 3, "idxq", False, True, 1_000_000, False, True), "numpy container, grid updates + index query", budget_s=100, **kw),
         I("cap2-k2-state-300ms", "make", (2, 2, 4, "state", False, False, 300_000), "sampling period 300 ms, capacity 2, 2 symbolic updates", budget_s=200, **kw),
         I("grid-cap2-k2-idxq-300ms", "make", (2, 2, 4, "idxq", False, True, 300_000), "sampling period 300 ms, grid updates + index query", budget_s=200, **kw),
     ]
@@ -271,6 +278,8 @@ def instances(tier):
             I("grid-cap4-k4-state-200ms", "make", (4, 4, 6, "state", False, True, 200_000), "sampling period 200 ms, capacity 4, 4 grid updates", budget_s=600, **kw),
             I("grid-cap5-k3-dtq-halfgrid-300ms", "make", (5, 3, 7, "dtq", False, True, 300_000, True),
               "sampling period 300 ms, capacity 5, 3 grid updates in 8 slots, half-slot-grid datetime queries (budgeted)", budget_s=900, exhaustive=False, **kw),
+            I("cap2-k2-dtq-numpy", "make", (2, 2, 4, "dtq", False, False, 1_000_000, False, True), "numpy container, symbolic updates + datetime query", budget_s=600, exhaustive=False, **kw),
+            I("cap2-k2-idxq-numpy", "make", (2, 2, 2, "idxq", False, False, 1_000_000, False, True), "numpy container, symbolic updates + index query", budget_s=600, exhaustive=False, **kw),
             I("grid-cap3-k3-dtq-300ms", "make", (3, 3, 4, "dtq", False, True, 300_000), "sampling period 300 ms, capacity 3, 3 grid updates + symbolic datetime query", budget_s=600, **kw),
             I("cap3-k3-at-70ms", "make_at", (3, 3, 4, False, 70_000), "sampling period 70 ms, MovingWindow.at", budget_s=600, exhaustive=False, **kw),
         ]
